@@ -59,7 +59,7 @@ func (sh *sipHash) compute() uint64 {
 	b := uint64(length) << 56
 
 	var index int
-	end := ((sh.length - 1) / 8) * 8
+	end := (sh.length / 8) * 8 // every complete 8-byte block; fewer than 8 bytes are left for the last word
 	for index = 0; index < end; index += 8 {
 		m := binary.LittleEndian.Uint64(sh.data[index:])
 
